@@ -412,6 +412,22 @@ func buildC15(tier string) *core.Plan {
 		map[string]any{"quota": 3000000000, "sizes": []any{1, 4294967296}, "f": 0.1, "max": math.MaxInt64, "items": []any{map[string]any{"id": 5000000000}, map[string]any{"id": 1}}, "extra": 1},
 		map[string]any{"quota": 3000000001, "sizes": []any{1, 4294967296, 7}, "f": 0.1, "max": math.MaxInt64, "items": []any{map[string]any{"id": 5000000000}, map[string]any{"id": 1}, map[string]any{"id": 2}}},
 	}
+	// neighbouring integers that share one float64 image, and the largest/smallest integers
+	numTargets = append(numTargets,
+		map[string]any{"quota": 3000000000, "sizes": []any{1, 4294967296}, "f": 0.1, "max": math.MaxInt64 - 1, "items": []any{map[string]any{"id": 5000000000}, map[string]any{"id": 1}}},
+		map[string]any{"quota": 3000000000, "sizes": []any{1, 4294967297}, "f": 0.1, "max": math.MaxInt64, "items": []any{map[string]any{"id": 5000000000}, map[string]any{"id": 1}}},
+	)
+	neigh := [][2]any{{9007199254740992, 9007199254740993}, {9007199254740993, 9007199254740992}, {math.MaxInt64, math.MaxInt64 - 1}, {math.MinInt64, math.MinInt64 + 1}, {0.1, 0.10000000000000002}, {1e21, 1.0000000000000001e21}, {0, -1}}
+	neighSpace := core.Space{Name: "neighbouring-numbers", N: int64(len(neigh)),
+		Desc: func(i int64) any { return neigh[i] },
+		Run: func(c *core.Ctx, i int64) {
+			a, b := neigh[i][0], neigh[i][1]
+			c15Pair(c, map[string]any{"n": a, "k": 1}, map[string]any{"n": b, "k": 1})
+			c15Pair(c, map[string]any{"l": []any{a, 7}, "k": 1}, map[string]any{"l": []any{b, 7}, "k": 1})
+			c15Pair(c, map[string]any{"l": []any{map[string]any{"id": a, "v": 1}}}, map[string]any{"l": []any{map[string]any{"id": b, "v": 1}}})
+			c15CLI(c, map[string]any{"n": a, "k": 1}, map[string]any{"n": b, "k": 1}, "json", "yaml", "json")
+			c15CLI(c, map[string]any{"l": []any{a, 7}}, map[string]any{"l": []any{b, 7}}, "yaml", "json", "yaml")
+		}}
 	numSpace := core.Space{Name: "cli-cross-format-numbers", N: int64(len(numTargets) * 27), Chunk: 1,
 		Desc: func(i int64) any {
 			return map[string]any{"base": numBase, "target": numTargets[i/27], "formats": []string{fm[i%3], fm[(i/3)%3], fm[(i/9)%3]}}
@@ -420,7 +436,7 @@ func buildC15(tier string) *core.Plan {
 			c15CLI(c, numBase, numTargets[i/27], fm[i%3], fm[(i/3)%3], fm[(i/9)%3])
 		}}
 	return &core.Plan{
-		Spaces: []core.Space{pairs, listPairs, cli, refSpace, numSpace, kindSpace, dollarSpace, inheritSpace},
+		Spaces: []core.Space{pairs, listPairs, cli, refSpace, numSpace, kindSpace, dollarSpace, inheritSpace, neighSpace},
 		Rule:   "every ordered pair (base, target) of map-rooted, null-free, $-free trees up to N nodes over keys {a,b,l} and scalars {1,2,x}; every pair of lists of <=2 (thorough 3) entries drawn from scalars, sub-lists and maps where one is a subset of another; CLI round trips in format mixes; non-trivial = base differs from target",
 		Assumptions: []string{"in-process runs use cmd/bkld/diff.go copied from /repo's working tree at build time (package clause rewritten, fatal() panics), driven exactly like cmd/bkld/main.go; the CLI space runs the real binaries",
 			"the emitted layer is applied as a second input (`bkl base layer`), where its $match: {} selects the base document"},
